@@ -464,7 +464,7 @@ Proof.
   destruct (list_string_head w r) as (c & t & Hs & Hw & Hhash).
   assert (Hfuel : exists f, parse_fuel (list_to_string (w :: r)) = S (S f)
                             /\ (length (list_to_string (w :: r)) + 3 <= f)%nat).
-  { exists (4 * length (list_to_string (w :: r)) + 14)%nat. unfold parse_fuel. lia. }
+  { exists (8 * length (list_to_string (w :: r)) + 14)%nat. unfold parse_fuel. lia. }
   destruct Hfuel as (f & -> & Hf).
   rewrite parse_script_eq. rewrite Hs at 1. cbn [at_end_of_script andb].
   rewrite parse_command_eq. cbv zeta.
